@@ -6,4 +6,4 @@ cd "$(dirname "$0")"
 ./check build
 # warm the Miri lane's build (lane B3 of the C17 check); if Miri is not usable the lane reports
 # itself as unavailable and the rest of the check still runs
-( cd miri-lane && MIRIFLAGS="-Zmiri-tree-borrows" CARGO_TARGET_DIR="$PWD/../.target/miri" CARGO_NET_OFFLINE=true cargo +nightly miri run --offline -- 3 >/dev/null 2>&1 ) || echo "[setup] warning: the Miri lane could not be built/run" >&2
+( cd miri-lane && MIRIFLAGS="-Zmiri-tree-borrows" CARGO_TARGET_DIR="${VERIF_TARGET:-$PWD/../.target}/miri" CARGO_NET_OFFLINE=true cargo +nightly miri run --offline -- 3 >/dev/null 2>&1 ) || echo "[setup] warning: the Miri lane could not be built/run" >&2
